@@ -75,14 +75,14 @@ func VerifC44_file() {
 	vfAssert(err == nil, "create /f")
 	var data []byte // reference contents: concrete length, symbolic bytes
 	pos := 0        // reference position: concrete (concretised after every Seek)
-	k := 3
+	k, wmax, rmax, olo, ohi := 3, 2, 3, int64(-2), int64(3)
 	if vfTier() > 0 {
-		k = 4
+		wmax, rmax, olo, ohi = 3, 4, -3, 4
 	}
 	for step := 0; step < k; step++ {
 		switch vfChoice("op", 4) {
 		case 0: // Write
-			n := vfLen("wn", 1, 2)
+			n := vfLen("wn", 1, wmax)
 			p := vfBytes("w", n)
 			got, err := f.Write(p)
 			vfAssert(err == nil && got == n, "Write returns (len(p), nil)")
@@ -99,7 +99,7 @@ func VerifC44_file() {
 			}
 			pos += n
 		case 1: // Read
-			m := vfLen("rn", 1, 3)
+			m := vfLen("rn", 1, rmax)
 			buf := make([]byte, m)
 			got, err := f.Read(buf)
 			if pos >= len(data) {
@@ -116,8 +116,8 @@ func VerifC44_file() {
 			}
 		case 2: // Seek within a small window around the file
 			offset := vfI64("offset")
-			vfAssume(offset >= -2)
-			vfAssume(offset <= 3)
+			vfAssume(offset >= olo)
+			vfAssume(offset <= ohi)
 			whence := vfChoice("whence", 4)
 			base := int64(-100) // invalid whence
 			switch whence {
@@ -343,8 +343,14 @@ func VerifC44_tree() {
 		k = 3
 	}
 	for step := 0; step < k; step++ {
-		op := vfChoice("op", 4)
-		ni := vfChoice("name", len(c44names))
+		// thorough: a third operation; operations 2 and 3 are then RemoveAll/Rename over the first four names
+		op, nnames := 0, len(c44names)
+		if k == 3 && step > 0 {
+			op, nnames = 2+vfChoice("op", 2), 4
+		} else {
+			op = vfChoice("op", 4)
+		}
+		ni := vfChoice("name", nnames)
 		p, sp := c44names[ni], c44spell[ni]
 		switch op {
 		case 0: // Mkdir
@@ -414,7 +420,7 @@ func VerifC44_tree() {
 				vfReach("removeall-missing")
 			}
 		case 3: // Rename
-			nj := vfChoice("name2", len(c44names))
+			nj := vfChoice("name2", nnames)
 			q, sq := c44names[nj], c44spell[nj]
 			err := fs.Rename(ctx, sp, sq)
 			switch {
